@@ -30,3 +30,49 @@ func VerifC12_CompactionInWorkload() {
 	h.hProbe()
 	vsym.Reach("done")
 }
+
+// VerifC12_CrashDuringCompaction: two or three flushed level-0 tables hold successive versions of a key (a value, an
+// overwrite or a delete) and another key; a compaction cycle is triggered and the process dies at any file-system
+// step of it (output write, sync, rename, input removal; both crash models). The flushed log files are then retired
+// - everything they hold is in tables - and the database is reopened: from whatever set of table files the crash
+// left behind, every key still reads as its latest write says (inputs may only disappear once the outputs that
+// replace them are complete and durable).
+func VerifC12_CrashDuringCompaction() {
+	h := &hEnv{maxMem: 2}
+	h.hKeys(2)
+	h.hOpen(true, false)
+	n := 2
+	if vsym.Thorough() {
+		n = vsym.IntRange("tables", 2, 3)
+	}
+	for i := 0; i < n; i++ {
+		if i > 0 && vsym.IntRange("del", 0, 1) == 1 {
+			vsym.Assert(h.e.Delete(h.K[0]) == nil, "Delete failed")
+			h.present[0] = false
+		} else {
+			v := vsym.Bytes("v", 1)
+			vsym.Assert(h.e.Put(h.K[0], v) == nil, "Put failed")
+			h.present[0], h.val[0] = true, v
+		}
+		if i == 0 {
+			v := vsym.Bytes("w", 1)
+			vsym.Assert(h.e.Put(h.K[1], v) == nil, "Put failed")
+			h.present[1], h.val[1] = true, v
+		}
+		vsym.Assert(h.e.FlushImMemTables() == nil, "Flush failed")
+	}
+	vsym.Durable()
+	mode := vsym.IntRange("mode", 1, 2)
+	e := h.e
+	vsym.CrashRegion(mode, func() { e.TriggerCompaction() })
+	if vsym.CrashKind() == 0 {
+		vsym.Assert(h.e.Close() == nil, "Close failed")
+	}
+	// retire the flushed logs, reopen on the table files alone
+	h.e = nil
+	h.retireLogs()
+	h.hOpen(false, false)
+	h.hProbeKey(0)
+	h.hProbeKey(1)
+	vsym.Reach("done")
+}
